@@ -95,12 +95,12 @@ def maskSpec (key : Bytes) (b : Bytes) : Bytes :=
 /-! ### send side -/
 
 inductive Err | closed | tooLong | invalidFragment | tooLarge | controlTooBig | reserveBit | reservedType
-              | controlFragmented | fragWithType | consumed | panic | inflate | stuck | http
+              | controlFragmented | fragWithType | consumed | panic | inflate | stuck | http | queueFull
   deriving Repr, DecidableEq
 def Err.code : Err → Nat
   | .closed => 1 | .tooLong => 2 | .invalidFragment => 3 | .tooLarge => 4 | .controlTooBig => 5
   | .reserveBit => 6 | .reservedType => 7 | .controlFragmented => 8 | .fragWithType => 9 | .consumed => 10
-  | .panic => 11 | .inflate => 12 | .stuck => 99 | .http => 13
+  | .panic => 11 | .inflate => 12 | .stuck => 99 | .http => 13 | .queueFull => 14
 
 /-- `writeFrame`: the bytes of one frame -/
 def encodeFrame (isClient : Bool) (key : Bytes) (opcode : Nat) (sendOpcode fin : Bool) (data : Bytes) (rsv1 : Bool) : Bytes :=
@@ -397,5 +397,59 @@ def appWrite (g : Cfg) (e : Env) (s : K) (opcode : Nat) (data : Bytes) : K × Ex
   match writeMessage g e s.nwrites opcode data with
   | .error er => (s, .error er)
   | .ok ws => if s.connClosed then (s, .error .closed) else ({ s with nwrites := s.nwrites + ws.length }, .ok ws)
+
+/-- frames a payload of `n` bytes (after compression) takes in the send queue -/
+def nFrames (g : Cfg) (n : Nat) : Nat :=
+  if g.maxFrame > 0 ∧ n > g.maxFrame then (n + g.maxFrame - 1) / g.maxFrame else 1
+
+/-- what `WriteMessage` hands to the fragmentation loop: the payload after compression -/
+def wirePayload (g : Cfg) (e : Env) (opcode : Nat) (data : Bytes) : Bytes :=
+  if g.writeCompression && (opcode == 1 || opcode == 2) then e.deflate data else data
+
+/-- result of queueing frames one by one -/
+structure Enq where
+  q : Nat              -- queue length afterwards
+  wrote : List Bytes   -- frames that got a slot
+  full : Bool          -- a frame found the queue full: the call failed there
+  deriving Repr, DecidableEq
+
+/-- the admission of `writeFrame` (asynchronous mode): a frame is appended while the queue has a free slot; the first frame
+    that finds it full fails the call, the frames queued before it stay queued -/
+def enqueue (size : Nat) : Nat → List Bytes → Enq
+  | q, [] => ⟨q, [], false⟩
+  | q, f :: fs =>
+    if q ≥ size then ⟨q, [], true⟩
+    else let r := enqueue size (q + 1) fs; ⟨r.q, f :: r.wrote, r.full⟩
+
+/-- result of a `WriteMessage` through the send queue -/
+structure QW where
+  k : K
+  qlen : Nat
+  wrote : List Bytes   -- frames handed to the conn writer (in order)
+  err : Option Err
+
+/-- `WriteMessage` in asynchronous mode with a bounded send queue (`size` slots, `qlen` taken): a data message passes the
+    all-or-nothing admission check (its frames counted AFTER compression), then every frame passes `writeFrame`'s own check;
+    a control message meets only the latter. -/
+def appWriteQ (g : Cfg) (e : Env) (k : K) (size qlen : Nat) (opcode : Nat) (data : Bytes) : QW :=
+  match writeMessage g e k.nwrites opcode data with
+  | .error er => ⟨k, qlen, [], some er⟩
+  | .ok ws =>
+    if k.connClosed then ⟨k, qlen, [], some .closed⟩
+    else if !isControl opcode && qlen + nFrames g (wirePayload g e opcode data).length > size then ⟨k, qlen, [], some .queueFull⟩
+    else
+      let r := enqueue size qlen ws
+      ⟨{ k with nwrites := k.nwrites + r.wrote.length }, r.q, r.wrote, if r.full then some .queueFull else none⟩
+
+/-- `WriteClose(code, reason)`: the payload is the 2-byte status code followed by the reason; it goes through
+    `WriteMessage`, which limits the WHOLE control payload to 125 bytes -/
+def appWriteClose (g : Cfg) (e : Env) (k : K) (code : Nat) (reason : Bytes) : K × Except Err (List Bytes) :=
+  appWrite g e k 8 (be16 code ++ reason)
+
+/-- `WriteFrame(messageType, sendOpcode, fin, data)`: one frame as given; a control payload over 125 bytes is refused -/
+def appWriteFrame (g : Cfg) (e : Env) (k : K) (opcode : Nat) (sendOpcode fin : Bool) (data : Bytes) : K × Except Err (List Bytes) :=
+  if isControl opcode && data.length > 125 then (k, .error .controlTooBig)
+  else if k.connClosed then (k, .error .closed)
+  else ({ k with nwrites := k.nwrites + 1 }, .ok [encodeFrame g.isClient (e.keyAt k.nwrites) opcode sendOpcode fin data false])
 
 end Ws
